@@ -160,4 +160,114 @@ theorem M2_one_mul (a : M2 K) : M2.mul ⟨1, 0, 0, 1⟩ a = a := by
 theorem M2_mul_one (a : M2 K) : M2.mul a ⟨1, 0, 0, 1⟩ = a := by
   obtain ⟨a, b, c, d⟩ := a; simp [M2.mul]
 
+/-! ### existence pivots -/
+
+theorem ker_of_det_zero (m : M2 K) (h : m.det = 0) :
+    ∃ x y : K, (x ≠ 0 ∨ y ≠ 0) ∧ m.a11 * x + m.a12 * y = 0 ∧ m.a21 * x + m.a22 * y = 0 := by
+  simp only [M2.det] at h
+  by_cases h1 : m.a12 = 0 ∧ m.a11 = 0
+  · by_cases h2 : m.a22 = 0 ∧ m.a21 = 0
+    · exact ⟨1, 0, Or.inl one_ne_zero, by simp [h1.2], by simp [h2.2]⟩
+    · refine ⟨m.a22, -m.a21, ?_, by simp [h1.1, h1.2], by ring⟩
+      by_contra hc; rw [not_or, not_not, not_not] at hc; exact h2 ⟨hc.1, by simpa using hc.2⟩
+  · refine ⟨-m.a12, m.a11, ?_, by ring, by linear_combination h⟩
+    by_contra hc; rw [not_or, not_not, not_not] at hc; exact h1 ⟨by simpa using hc.1, hc.2⟩
+
+/-- a port of `rel X m` on which both right-hand variables of `P` vanish when the entry pivot is 0
+    (entry-type pivots; for the inverse pairs the kernel vector (x, y) of `m` is used) -/
+def killPort (x y : K) : MRep → MRep → M2 K → Port K
+  | .A, .A, m => ⟨m.a11 * (x) + m.a12 * (y), m.a21 * (x) + m.a22 * (y), x, -(y)⟩
+  | .A, .B, m => ⟨m.a11 * (x) + m.a12 * (y), m.a21 * (x) + m.a22 * (y), x, -(y)⟩
+  | .A, .G, m => ⟨m.a11 * (1) + m.a12 * (0), m.a21 * (1) + m.a22 * (0), 1, -(0)⟩
+  | .A, .H, m => ⟨m.a11 * (0) + m.a12 * (1), m.a21 * (0) + m.a22 * (1), 0, -(1)⟩
+  | .A, .Y, m => ⟨m.a11 * (0) + m.a12 * (1), m.a21 * (0) + m.a22 * (1), 0, -(1)⟩
+  | .A, .Z, m => ⟨m.a11 * (1) + m.a12 * (0), m.a21 * (1) + m.a22 * (0), 1, -(0)⟩
+  | .B, .A, m => ⟨x, y, m.a11 * (x) + m.a12 * (y), -(m.a21 * (x) + m.a22 * (y))⟩
+  | .B, .B, m => ⟨x, y, m.a11 * (x) + m.a12 * (y), -(m.a21 * (x) + m.a22 * (y))⟩
+  | .B, .G, m => ⟨0, 1, m.a11 * (0) + m.a12 * (1), -(m.a21 * (0) + m.a22 * (1))⟩
+  | .B, .H, m => ⟨1, 0, m.a11 * (1) + m.a12 * (0), -(m.a21 * (1) + m.a22 * (0))⟩
+  | .B, .Y, m => ⟨0, 1, m.a11 * (0) + m.a12 * (1), -(m.a21 * (0) + m.a22 * (1))⟩
+  | .B, .Z, m => ⟨1, 0, m.a11 * (1) + m.a12 * (0), -(m.a21 * (1) + m.a22 * (0))⟩
+  | .G, .A, m => ⟨1, m.a11 * (1) + m.a12 * (0), m.a21 * (1) + m.a22 * (0), 0⟩
+  | .G, .B, m => ⟨0, m.a11 * (0) + m.a12 * (1), m.a21 * (0) + m.a22 * (1), 1⟩
+  | .G, .G, m => ⟨x, m.a11 * (x) + m.a12 * (y), m.a21 * (x) + m.a22 * (y), y⟩
+  | .G, .H, m => ⟨x, m.a11 * (x) + m.a12 * (y), m.a21 * (x) + m.a22 * (y), y⟩
+  | .G, .Y, m => ⟨0, m.a11 * (0) + m.a12 * (1), m.a21 * (0) + m.a22 * (1), 1⟩
+  | .G, .Z, m => ⟨1, m.a11 * (1) + m.a12 * (0), m.a21 * (1) + m.a22 * (0), 0⟩
+  | .H, .A, m => ⟨m.a11 * (1) + m.a12 * (0), 1, 0, m.a21 * (1) + m.a22 * (0)⟩
+  | .H, .B, m => ⟨m.a11 * (0) + m.a12 * (1), 0, 1, m.a21 * (0) + m.a22 * (1)⟩
+  | .H, .G, m => ⟨m.a11 * (x) + m.a12 * (y), x, y, m.a21 * (x) + m.a22 * (y)⟩
+  | .H, .H, m => ⟨m.a11 * (x) + m.a12 * (y), x, y, m.a21 * (x) + m.a22 * (y)⟩
+  | .H, .Y, m => ⟨m.a11 * (1) + m.a12 * (0), 1, 0, m.a21 * (1) + m.a22 * (0)⟩
+  | .H, .Z, m => ⟨m.a11 * (0) + m.a12 * (1), 0, 1, m.a21 * (0) + m.a22 * (1)⟩
+  | .Y, .A, m => ⟨1, m.a11 * (1) + m.a12 * (0), 0, m.a21 * (1) + m.a22 * (0)⟩
+  | .Y, .B, m => ⟨0, m.a11 * (0) + m.a12 * (1), 1, m.a21 * (0) + m.a22 * (1)⟩
+  | .Y, .G, m => ⟨0, m.a11 * (0) + m.a12 * (1), 1, m.a21 * (0) + m.a22 * (1)⟩
+  | .Y, .H, m => ⟨1, m.a11 * (1) + m.a12 * (0), 0, m.a21 * (1) + m.a22 * (0)⟩
+  | .Y, .Y, m => ⟨x, m.a11 * (x) + m.a12 * (y), y, m.a21 * (x) + m.a22 * (y)⟩
+  | .Y, .Z, m => ⟨x, m.a11 * (x) + m.a12 * (y), y, m.a21 * (x) + m.a22 * (y)⟩
+  | .Z, .A, m => ⟨m.a11 * (1) + m.a12 * (0), 1, m.a21 * (1) + m.a22 * (0), 0⟩
+  | .Z, .B, m => ⟨m.a11 * (0) + m.a12 * (1), 0, m.a21 * (0) + m.a22 * (1), 1⟩
+  | .Z, .G, m => ⟨m.a11 * (1) + m.a12 * (0), 1, m.a21 * (1) + m.a22 * (0), 0⟩
+  | .Z, .H, m => ⟨m.a11 * (0) + m.a12 * (1), 0, m.a21 * (0) + m.a22 * (1), 1⟩
+  | .Z, .Y, m => ⟨m.a11 * (x) + m.a12 * (y), x, m.a21 * (x) + m.a22 * (y), y⟩
+  | .Z, .Z, m => ⟨m.a11 * (x) + m.a12 * (y), x, m.a21 * (x) + m.a22 * (y), y⟩
+
+theorem killPort_rel (x y : K) (X P : MRep) (m : M2 K) (Z0 : K) : rel X.toRep m Z0 (killPort x y X P m) := by
+  cases X <;> cases P <;> simp [killPort, rel, lin, MRep.toRep]
+
+/-- direct formulas for the five pairs that Lcapy only reaches through an intermediate representation -/
+def directConv : MRep → MRep → M2 K → Option (M2 K)
+  | .A, .G, m => some ⟨m.a21 / m.a11, m.a12 * m.a21 / m.a11 - m.a22, 1 / m.a11, m.a12 / m.a11⟩
+  | .G, .Y, m => some ⟨m.a11 - m.a12 * m.a21 / m.a22, m.a12 / m.a22, -m.a21 / m.a22, 1 / m.a22⟩
+  | .G, .Z, m => some ⟨1 / m.a11, -m.a12 / m.a11, m.a21 / m.a11, m.a22 - m.a21 * m.a12 / m.a11⟩
+  | .Y, .G, m => some ⟨m.a11 - m.a12 * m.a21 / m.a22, m.a12 / m.a22, -m.a21 / m.a22, 1 / m.a22⟩
+  | .Z, .G, m => some ⟨1 / m.a11, -m.a12 / m.a11, m.a21 / m.a11, m.a22 - m.a21 * m.a12 / m.a11⟩
+  | _, _, _ => none
+
+theorem directConv_sound (X P : MRep) (m z : M2 K) (Z0 : K) (hz : directConv X P m = some z)
+    (h : pivot X P m ≠ 0) (p : Port K) : rel X.toRep m Z0 p ↔ rel P.toRep z Z0 p := by
+  obtain ⟨V1, I1, V2, I2⟩ := p
+  cases X <;> cases P <;> simp only [directConv, Option.some.injEq, reduceCtorEq] at hz <;> subst hz <;>
+    simp only [pivot] at h <;> simp only [rel, lin, MRep.toRep] <;>
+    constructor <;> rintro ⟨h1, h2⟩ <;> constructor <;> (field_simp at h1 h2 ⊢; first | linear_combination h1 | linear_combination h2 | grind)
+
+/-! ### parameter dispatch, all eight targets -/
+
+/-- dispatch to the generated conversion `X_to_P`, all eight targets -/
+def conv8 : MRep → Rep → M2 K → K → M2 K
+  | .A, .A => A_to_A | .A, .B => A_to_B | .A, .G => A_to_G | .A, .H => A_to_H | .A, .S => A_to_S | .A, .T => A_to_T | .A, .Y => A_to_Y | .A, .Z => A_to_Z
+  | .B, .A => B_to_A | .B, .B => B_to_B | .B, .G => B_to_G | .B, .H => B_to_H | .B, .S => B_to_S | .B, .T => B_to_T | .B, .Y => B_to_Y | .B, .Z => B_to_Z
+  | .G, .A => G_to_A | .G, .B => G_to_B | .G, .G => G_to_G | .G, .H => G_to_H | .G, .S => G_to_S | .G, .T => G_to_T | .G, .Y => G_to_Y | .G, .Z => G_to_Z
+  | .H, .A => H_to_A | .H, .B => H_to_B | .H, .G => H_to_G | .H, .H => H_to_H | .H, .S => H_to_S | .H, .T => H_to_T | .H, .Y => H_to_Y | .H, .Z => H_to_Z
+  | .Y, .A => Y_to_A | .Y, .B => Y_to_B | .Y, .G => Y_to_G | .Y, .H => Y_to_H | .Y, .S => Y_to_S | .Y, .T => Y_to_T | .Y, .Y => Y_to_Y | .Y, .Z => Y_to_Z
+  | .Z, .A => Z_to_A | .Z, .B => Z_to_B | .Z, .G => Z_to_G | .Z, .H => Z_to_H | .Z, .S => Z_to_S | .Z, .T => Z_to_T | .Z, .Y => Z_to_Y | .Z, .Z => Z_to_Z
+
+/-- dispatch to the side condition `ok_X_P` of Props/C08.lean, all eight targets -/
+def okc8 : MRep → Rep → M2 K → K → Prop
+  | .A, .A => ok_A_A | .A, .B => ok_A_B | .A, .G => ok_A_G | .A, .H => ok_A_H | .A, .S => ok_A_S | .A, .T => ok_A_T | .A, .Y => ok_A_Y | .A, .Z => ok_A_Z
+  | .B, .A => ok_B_A | .B, .B => ok_B_B | .B, .G => ok_B_G | .B, .H => ok_B_H | .B, .S => ok_B_S | .B, .T => ok_B_T | .B, .Y => ok_B_Y | .B, .Z => ok_B_Z
+  | .G, .A => ok_G_A | .G, .B => ok_G_B | .G, .G => ok_G_G | .G, .H => ok_G_H | .G, .S => ok_G_S | .G, .T => ok_G_T | .G, .Y => ok_G_Y | .G, .Z => ok_G_Z
+  | .H, .A => ok_H_A | .H, .B => ok_H_B | .H, .G => ok_H_G | .H, .H => ok_H_H | .H, .S => ok_H_S | .H, .T => ok_H_T | .H, .Y => ok_H_Y | .H, .Z => ok_H_Z
+  | .Y, .A => ok_Y_A | .Y, .B => ok_Y_B | .Y, .G => ok_Y_G | .Y, .H => ok_Y_H | .Y, .S => ok_Y_S | .Y, .T => ok_Y_T | .Y, .Y => ok_Y_Y | .Y, .Z => ok_Y_Z
+  | .Z, .A => ok_Z_A | .Z, .B => ok_Z_B | .Z, .G => ok_Z_G | .Z, .H => ok_Z_H | .Z, .S => ok_Z_S | .Z, .T => ok_Z_T | .Z, .Y => ok_Z_Y | .Z, .Z => ok_Z_Z
+
+theorem conv8_sound (N : MRep) (P : Rep) : SoundConv N.toRep P (conv8 (K := K) N P) (okc8 N P) :=
+  match N, P with
+  | .A, .A => A_to_A_sound | .A, .B => A_to_B_sound | .A, .G => A_to_G_sound | .A, .H => A_to_H_sound | .A, .S => A_to_S_sound | .A, .T => A_to_T_sound | .A, .Y => A_to_Y_sound | .A, .Z => A_to_Z_sound
+  | .B, .A => B_to_A_sound | .B, .B => B_to_B_sound | .B, .G => B_to_G_sound | .B, .H => B_to_H_sound | .B, .S => B_to_S_sound | .B, .T => B_to_T_sound | .B, .Y => B_to_Y_sound | .B, .Z => B_to_Z_sound
+  | .G, .A => G_to_A_sound | .G, .B => G_to_B_sound | .G, .G => G_to_G_sound | .G, .H => G_to_H_sound | .G, .S => G_to_S_sound | .G, .T => G_to_T_sound | .G, .Y => G_to_Y_sound | .G, .Z => G_to_Z_sound
+  | .H, .A => H_to_A_sound | .H, .B => H_to_B_sound | .H, .G => H_to_G_sound | .H, .H => H_to_H_sound | .H, .S => H_to_S_sound | .H, .T => H_to_T_sound | .H, .Y => H_to_Y_sound | .H, .Z => H_to_Z_sound
+  | .Y, .A => Y_to_A_sound | .Y, .B => Y_to_B_sound | .Y, .G => Y_to_G_sound | .Y, .H => Y_to_H_sound | .Y, .S => Y_to_S_sound | .Y, .T => Y_to_T_sound | .Y, .Y => Y_to_Y_sound | .Y, .Z => Y_to_Z_sound
+  | .Z, .A => Z_to_A_sound | .Z, .B => Z_to_B_sound | .Z, .G => Z_to_G_sound | .Z, .H => Z_to_H_sound | .Z, .S => Z_to_S_sound | .Z, .T => Z_to_T_sound | .Z, .Y => Z_to_Y_sound | .Z, .Z => Z_to_Z_sound
+
+/-- `t.Aparams … t.Zparams` selected by the target representation -/
+def tpnParams : Rep → Stage K → K → M2 K
+  | .A => TPN_Aparams | .B => TPN_Bparams | .G => TPN_Gparams | .H => TPN_Hparams
+  | .S => TPN_Sparams | .T => TPN_Tparams | .Y => TPN_Yparams | .Z => TPN_Zparams
+
+theorem tpnParams_eq (P : Rep) (t : Stage K) (Z0 : K) : tpnParams P t Z0 = conv8 t.rep P t.m Z0 := by
+  obtain ⟨N, m, s1, s2⟩ := t
+  cases N <;> cases P <;> simp [tpnParams, TPN_Aparams, TPN_Bparams, TPN_Gparams, TPN_Hparams, TPN_Sparams, TPN_Tparams,
+    TPN_Yparams, TPN_Zparams, conv8, A_to_A, B_to_B, G_to_G, H_to_H, Y_to_Y, Z_to_Z]
 end Lcapy.TwoPort
